@@ -36,7 +36,7 @@ m = {
     "hooks": {
         "guard": "verif",
         "enable": "go build -tags verif (the harness module replaces github.com/zalf-rpm/Hermes2Go/hermes by /repo/hermes)",
-        "baseline_off_cmd": "cd /repo && for m in hermes src/calcHermesBatch src/calcSoil src/climatefileconverter src/cropfileconverter src/hermes2go src/hermes_service src/hermes_service/capnp/hermes_service_capnp src/producer_consumer src/ptf_testing src/renderservice src/verify_project; do (cd $m && if [ \"$(go env GOWORK)\" = off ] || [ -z \"$(go env GOWORK)\" ]; then MF=-mod=mod; else MF=; fi; GOPROXY=off GOSUMDB=off go test $MF -vet=off -count=1 ./...) || exit 1; done",
+        "baseline_off_cmd": "for m in hermes src/calcHermesBatch src/calcSoil src/climatefileconverter src/cropfileconverter src/hermes2go src/hermes_service src/hermes_service/capnp/hermes_service_capnp src/producer_consumer src/ptf_testing src/renderservice src/verify_project; do (cd /repo/$m && gw=$(go env GOWORK 2>/dev/null); if [ -z \"$gw\" ] || [ \"$gw\" = off ]; then MF=-mod=mod; else MF=; fi; GOPROXY=off GOSUMDB=off go test $MF -json -vet=off -count=1 -timeout 25m ./...); done",
         "source_commits": json.load(open(V + "/lib/hook_commits.json")) if os.path.exists(V + "/lib/hook_commits.json") else [],
         "add_only": True,
     },
